@@ -570,7 +570,8 @@ def oracle_chain(c, o):
             elif r["value"] is not None and [e for e in tail_log if e[0] == r["key"]][-1][1] != r["value"]:
                 out.append(dict(clause="chain: a read served by the tail returns the tail's latest value", rid=r["rid"], value=r["value"]))
         elif c["craq"] and not committed:
-            earlier = any(w < r["value"] and op[3] == r["key"] for w, op in writes.items())
+            # the mark of this key can only have been cleared by the commit/ack of ANOTHER write to the same key
+            earlier = any(w != r["value"] and op[3] == r["key"] for w, op in writes.items())
             own = [tuple(x) for x in r["logs"][r["served_by"]]]
             late = (r["key"], r["value"]) not in own[:r["start_len"]]      # applied after the dirty check
             if late:
